@@ -192,7 +192,7 @@ def measure_facts06():
     sch, docs = real_schema(app)
     f['qualified'] = all(d.get('elementFormDefault') == 'qualified' for d in docs.values())
     facets = [etree_local(e) for d in docs.values() for st in d.iter('{%s}simpleType' % XS)
-              if st.get('name') == 'W_uType' for e in st[0]]
+              if st.get('name') == 'W_u' + const.TYPE_SUFFIX for e in st[0]]
     ok, why = compile_real(app)
     f['clampFacets'] = (facets == [] and ok)
     f['_clamp_observed'] = {'facets_of_W_uType': facets, 'schema_compiles': ok, 'error': None if ok else why}
@@ -204,7 +204,7 @@ def measure_facts06():
         app, _ = xb.make_app(b, 'xml', None)
     sch, docs = real_schema(app)
     facets = [etree_local(e) for d in docs.values() for st in d.iter('{%s}simpleType' % XS)
-              if st.get('name') == 'W_vType' for e in st[0]]
+              if st.get('name') == 'W_v' + const.TYPE_SUFFIX for e in st[0]]
     ok, why = compile_real(app)
     f['mergeBounds'] = (facets == [['minInclusive', '3'], ['maxExclusive', '10']] and ok)
     f['_merge_observed'] = {'facets_of_W_vType': facets, 'schema_compiles': ok, 'error': None if ok else why}
@@ -247,7 +247,8 @@ def clamp_witness_universe():
         'methods': [{'name': 'm0', 'args': [['a0', {'k': 'ref', 'cls': 'W', 'o': o}]], 'rets': []}]}
 
 
-GOOD06 = {'typeSuffix': 'Type', 'arrayPrefix': '', 'arraySuffix': 'Array', 'parentSuffix': 'Parent', 'qualified': True,
+# the name affixes (spyne.const) are free parameters of the model: whatever they measure flows into `gen`
+GOOD06 = {'qualified': True,
           'boolName': 'boolean', 'unicodeName': 'string', 'dateName': 'date', 'timeName': 'time',
           'dateTimeName': 'dateTime', 'durationName': 'duration',
           'intName': {'unbounded': 'integer', 'i8': 'byte', 'i16': 'short', 'i32': 'int', 'i64': 'long',
@@ -714,28 +715,6 @@ def cross_ns_universe(rng, idx):
     return u
 
 
-def build(u, configs):
-    """classes + one (app, server) per configuration (proto, validator, polymorphic)"""
-    import warnings
-    with warnings.catch_warnings():
-        warnings.simplefilter('ignore')
-        b = xb.build_classes(u)
-        apps = {}
-        first = None
-        for cfg in configs:
-            proto, validator, poly = cfg
-            from spyne import Application
-            from spyne.server import ServerBase
-            xb._APP_COUNTER[0] += 1
-            app = Application([b.service], u['tns'], name='App%d' % xb._APP_COUNTER[0],
-                              in_protocol=xb.make_protocol(proto, validator, poly),
-                              out_protocol=xb.make_protocol(proto, None, poly))
-            apps[cfg] = (app, ServerBase(app))
-            first = first or app
-        xb.finish_built(b, first)
-    return b, apps
-
-
 # ====================================================================================== run
 def classify_compile_error(msg):
     if 'is not a valid value of the atomic type' in msg:
@@ -841,7 +820,6 @@ def run(ctx):
     per_method = 4 if ctx.thorough else 2
     n_mut = 16 if ctx.thorough else 10
     configs = [(p, 'lxml', poly) for p in xb.PROTOS for poly in (False, True)] + [('xml', 'soft', False)]
-    docs_q = []      # (query index bookkeeping for 'verdicts')
     for ui in range(n_univ + n_cross):
         cross = ui >= n_univ
         u = cross_ns_universe(rng, ui) if cross else xb.gen_universe(rng, ui)
@@ -870,7 +848,7 @@ def run(ctx):
             warnings.simplefilter('ignore')
             apps = {}
             for cfg in configs:
-                apps[cfg] = xb.make_app_cfg(b, *cfg) if hasattr(xb, 'make_app_cfg') else _make_app(b, *cfg)
+                apps[cfg] = _make_app(b, *cfg)
         vschema = apps[('xml', 'lxml', False)][0].in_protocol.validation_schema
         for mname in sorted(b.methods):
             key, in_ty, out_ty = b.methods[mname]
